@@ -41,4 +41,10 @@ PROPS = {
         "assumptions": [DOMAIN, "rings are judged after removing repeated consecutive coordinates and closing them, as geo-types and the documentation do", "interior connectedness is not part of the statement (nor of geo's documented rules) and is not judged"],
         "min_nontrivial": {"quick": 1000, "thorough": 10000},
     },
+    "C10": {
+        "budget": {"quick": 3000, "thorough": 60000},
+        "rule": "valid lattice polygons / multipolygons (0-3 holes incl. holes touching the shell or one another at a point, reflex and collinear vertices, vertical edges, offsets up to 2^30, scales 2^-10..2^10); ear-cut (per polygon, judged only when no two rings touch), constrained / constrained-outer / unconstrained Delaunay (lattice spacing >= 1 because of the documented absolute 1e-4 snap radius), monotone subdivision, stitch_triangulation of the constrained triangulation. Exact judgements on the lattice preimage: every corner is an input vertex (bitwise), sum of exact piece areas = exact polygon (or convex hull) area, pairwise disjoint interiors (integer separating-axis test / arrangement oracle), every piece inside the polygon (arrangement oracle: exterior(P) meets neither interior nor boundary of the piece), MonotonicPolygons::intersects(c) == (c not exterior to P) for every lattice and half-lattice coordinate of the envelope +-1, stitched multipolygon has the same exact area and the same location function on every half-lattice point. Non-trivial = polygon with >= 4 segments; distinct by digest.",
+        "assumptions": [DOMAIN, "Delaunay strata use lattice scales >= 1 (default snap_radius is an absolute 1e-4 by documented design)"],
+        "min_nontrivial": {"quick": 1000, "thorough": 10000},
+    },
 }
